@@ -1,18 +1,109 @@
-//! Kani proof harnesses (checked decoders: totality, bounds).
+//! Kani proof harnesses (engine K): the checked decoders are total (no panic, no
+//! overflow, no out-of-bounds access, loops bounded) on every byte string up to the
+//! stated length.  The curve/field kernels of the dependency run as contract bodies
+//! (see vendor/dusk-bls12_381-sym, `cfg(kani)`).
 #![allow(unused)]
 
 #[cfg(kani)]
 mod harnesses {
+    use dusk_bytes::{DeserializableSlice, Serializable};
     use dusk_plonk::prelude::*;
+    use dusk_plonk::verif as hk;
 
-    /// CommitKey::from_raw_var_bytes on an arbitrary buffer holding at most one point.
+    /// arbitrary prefix of an arbitrary buffer
+    macro_rules! arbitrary_slice {
+        ($n:expr) => {{
+            let bytes: [u8; $n] = kani::any();
+            let len: usize = kani::any();
+            kani::assume(len <= $n);
+            (bytes, len)
+        }};
+    }
+
+    /// CommitKey::from_raw_var_bytes (used by Prover::try_from_bytes): <= 1 raw point.
     #[kani::proof]
     #[kani::unwind(14)]
     fn commit_key_from_raw_var_bytes_one_point() {
-        let bytes: [u8; 8 + 97] = kani::any();
-        let len: usize = kani::any();
-        kani::assume(len <= 8 + 97);
-        let r = dusk_plonk::verif::commit_key_from_raw_var_bytes(&bytes[..len]);
+        let (bytes, len) = arbitrary_slice!(8 + 97);
+        let r = hk::commit_key_from_raw_var_bytes(&bytes[..len]);
+        kani::cover!(r.is_err());
+        kani::cover!(r.is_ok());
+    }
+
+    /// CommitKey::from_slice (used by PublicParameters::from_slice): <= 2 compressed points.
+    #[kani::proof]
+    #[kani::unwind(4)]
+    fn commit_key_from_slice_two_points() {
+        let (bytes, len) = arbitrary_slice!(2 * 48 + 5);
+        let r = hk::commit_key_from_slice(&bytes[..len]);
+        kani::cover!(r.is_err());
+        kani::cover!(r.is_ok());
+    }
+
+    /// OpeningKey::from_slice: 240 bytes (+ slack), identity points must be rejected.
+    #[kani::proof]
+    #[kani::unwind(4)]
+    fn opening_key_from_slice() {
+        let (bytes, len) = arbitrary_slice!(244);
+        let r = hk::opening_key_from_slice(&bytes[..len]);
+        if let Ok(k) = &r {
+            let (g, h, xh) = hk::opening_key_parts(k);
+            assert!(!bool::from(g.is_identity()));
+            assert!(!bool::from(h.is_identity()));
+            assert!(!bool::from(xh.is_identity()));
+        }
+        kani::cover!(r.is_err());
+        kani::cover!(r.is_ok());
+    }
+
+    /// Proof::from_bytes: all 1008-byte strings.
+    #[kani::proof]
+    #[kani::unwind(4)]
+    fn proof_from_bytes() {
+        let bytes: [u8; Proof::SIZE] = kani::any();
+        let r = Proof::from_bytes(&bytes);
+        kani::cover!(r.is_err());
+        kani::cover!(r.is_ok());
+    }
+
+    /// Polynomial::from_slice and Evaluations::from_slice: <= 2 scalars (+ slack).
+    #[kani::proof]
+    #[kani::unwind(5)]
+    fn polynomial_from_slice() {
+        let (bytes, len) = arbitrary_slice!(2 * 32 + 3);
+        let r = hk::polynomial_from_slice(&bytes[..len]);
+        if let Ok(n) = r {
+            assert!(n <= len / 32);
+        }
+        kani::cover!(r.is_ok());
+    }
+
+    #[kani::proof]
+    #[kani::unwind(5)]
+    fn evaluations_from_slice() {
+        let (bytes, len) = arbitrary_slice!(172 + 2 * 32 + 3);
+        let r = hk::evaluations_from_slice(&bytes[..len]);
+        if let Ok(n) = r {
+            assert!(n <= len / 32);
+        }
+        kani::cover!(r.is_err());
+    }
+
+    /// Prover::try_from_bytes / Verifier::try_from_bytes: header arithmetic on arbitrary
+    /// 56-byte strings (every length field arbitrary: overflow, truncation).
+    #[kani::proof]
+    #[kani::unwind(9)]
+    fn prover_try_from_bytes_header() {
+        let (bytes, len) = arbitrary_slice!(56);
+        let r = Prover::try_from_bytes(&bytes[..len]);
+        kani::cover!(r.is_err());
+    }
+
+    #[kani::proof]
+    #[kani::unwind(9)]
+    fn verifier_try_from_bytes_header() {
+        let (bytes, len) = arbitrary_slice!(56);
+        let r = Verifier::try_from_bytes(&bytes[..len]);
         kani::cover!(r.is_err());
     }
 }
